@@ -58,6 +58,9 @@ def plan(tier, seed):
         per = -(-tot // 8)
         sh += [{"kind": "exhaustive", "cases": {"start": i * per, "stop": min(tot, (i + 1) * per)}}
                for i in range(8)]
+    nrep = 48 if tier == "quick" else 960
+    sh += [{"kind": "replace", "cases": {"start": i * nrep // 4, "stop": (i + 1) * nrep // 4}}
+           for i in range(4)]
     nrem = 16 if tier == "quick" else 160
     sh += [{"kind": "remote", "cases": {"start": i * nrem // 2, "stop": (i + 1) * nrem // 2}}
            for i in range(2)]
@@ -405,11 +408,64 @@ def run_remote(ctx, idx, rng, tmp):
         srv.close()
 
 
+def run_replace(ctx, idx, rng, tmp):
+    """The file at a basin location is replaced between two openings of referrers in the same
+    process: whether the basin belongs to the referrer's measurement is a property of the file
+    that is at the location *now*."""
+    import warnings
+    import dclab
+    n = int(rng.integers(2, 9))
+    loc = tmp / "origin.rtdc"
+    mapped = bool(rng.random() < 0.4)
+    id_ref = "idA-sub" if mapped and rng.random() < 0.5 else "idA"
+    ref = tmp / "referrer.rtdc"
+    paths = {0: ref, 1: loc}
+    edge = {"src": 0, "dst": 1, "n": 0, "mapped": mapped, "dangling": False,
+            "relative": bool(rng.random() < 0.5)}
+    write_file(ref, 0, n, id_ref, [edge], paths, rng)
+    seq = [str(v) for v in rng.choice(["idA", "idB", "idA-sub", "none"], int(rng.integers(2, 5)))]
+    if len(set(seq)) == 1:
+        seq[-1] = "idB" if seq[0] != "idB" else "idA"
+    hist = []
+    for step, ident in enumerate(seq):
+        ident_ = None if ident == "none" else ident
+        if loc.exists():
+            loc.unlink()
+        # a different recording each time: the data encode the step
+        write_file(loc, 1, n, ident_, [], paths, rng)
+        import h5py
+        with h5py.File(loc, "a") as h5:
+            h5["events/userdef1"][:] = 1000.0 + 100 * step + np.arange(n)
+        exp = edge_matches(id_ref, ident_, mapped)
+        hist.append([ident, "follow" if exp else "refuse"])
+        how = int(rng.integers(0, 2))
+        with warnings.catch_warnings():
+            warnings.simplefilter("ignore")
+            ds = dclab.new_dataset(ref) if how == 0 else dclab.rtdc_dataset.fmt_hdf5.RTDC_HDF5(ref)
+            try:
+                got = "userdef1" in ds
+                val = np.asarray(ds["userdef1"][:]) if got else None
+            finally:
+                ds.close()
+        case = {"kind": "replace", "referrer_id": id_ref, "mapped": mapped,
+                "location_history": hist, "relative_location": edge["relative"]}
+        ctx.check("c14.offered_iff_model", got == exp,
+                  lambda: dict(case, offered=got, expected=exp),
+                  message=f"file at the basin location replaced (now {ident!r}, referrer "
+                          f"{id_ref!r}, mapped={mapped}): offered={got}, expected={exp}")
+        if got and exp:
+            ctx.check("c14.data_provenance",
+                      np.array_equal(val, 1000.0 + 100 * step + np.arange(n)),
+                      lambda: dict(case, got=val),
+                      message="basin data are not those of the file now at the location")
+    return case
+
+
 def run(spec, ctx):
     from vmon import boot
     install(ctx)
     for idx in ctx.case_ids():
-        rng = ctx.rng(idx, salt={"graph": 0, "exhaustive": 1, "remote": 2}[spec["kind"]])
+        rng = ctx.rng(idx, salt={"graph": 0, "exhaustive": 1, "remote": 2, "replace": 3}[spec["kind"]])
         tmp = boot.scratch() / f"c14_{spec['kind']}_{idx}"
         tmp.mkdir()
         try:
@@ -418,6 +474,12 @@ def run(spec, ctx):
                 ctx.mark_nontrivial(["remote", idx, case])
                 if idx % 8 == 0:
                     ctx.sample(dict(case, kind="remote"))
+                continue
+            if spec["kind"] == "replace":
+                case = run_replace(ctx, idx, rng, tmp)
+                ctx.mark_nontrivial(["replace", idx, case])
+                if idx % 16 == 0:
+                    ctx.sample(case)
                 continue
             if spec["kind"] == "exhaustive":
                 k, pairs = nth_digraph(idx)
